@@ -54,8 +54,8 @@ META = dict(
     text="Kernel-checked: a breaker / ESM / cool-off / price-lookup guard on the way makes the delivery fail with the state unchanged "
          "(also when writes precede it); vault withdraw after ESM runs until the cool-off ends and is refused afterwards. Over the table "
          "regenerated from /repo: every handler the text names has the breaker guard (18) resp. the ESM guard (5 debt-minting handlers) "
-         "on every route to success before its first write; no price-lookup error is swallowed; all 7 liquidation sweeps / auction "
-         "starters test the breaker in the skipping direction before any write. The harness runs every handler under every control "
+         "on every route to success before its first write; no price-lookup error is swallowed; all 7 liquidation sweeps / auction starters and the 3 guarded reward-payout units "
+         "test the breaker in the skipping direction before any write. The harness runs every handler under every control "
          "setting on the real app and the real BeginBlockers for a controlled app. After a shutdown: the price snapshot only ever "
          "takes the TWA of a found, active feed and completes only in a block without an inactive feed, for every sequence of blocks "
          "and feed states (induction); the real esm.BeginBlocker is replayed on that model block by block and the snapshot's consumers "
